@@ -5,17 +5,23 @@
 (* signer's w1 (hence the same commitment hash) and the norm test passes.  The hash   *)
 (* functions are quantified away: all their possible outputs (y, c) are enumerated.   *)
 (* The arithmetic is the specification's own (Ring.tla, Rounding.tla);                   *)
-(* k = l = 1 here, MC_ToySign2 repeats the check with k = 2, l = 1 on a subset.       *)
+(* l = 1; k = 1 (MC_ToySign.cfg) and k = 2 (MC_ToySign_k2.cfg: vector-shaped t, w,    *)
+(* hints and norms).  CanTerminate: for every key SOME attempt is accepted, i.e. the   *)
+(* rejection loop is not forced to run forever by the key alone.                       *)
 EXTENDS Rounding
 
 CONSTANTS KeyStride     \* explore every KeyStride-th s1 (1 = all)
 
+Rows  == 0 .. KK - 1
 Small == [Idx -> (-ETA) .. ETA]
 Masks == [Idx -> (-GAMMA1 + 1) .. GAMMA1]
 Ball  == { [i \in Idx |-> IF i = p THEN s ELSE 0] : p \in Idx, s \in {1, Q - 1} }    \* tau = 1
-AS  == { [i \in Idx |-> (3 * i * i + 5 * i + 7) % Q], [i \in Idx |-> (11 * i + 2) % Q] }
-S2S == { [i \in Idx |-> 0], [i \in Idx |-> 1], [i \in Idx |-> -1], [i \in Idx |-> IF i % 2 = 0 THEN 1 ELSE -1],
-         [i \in Idx |-> IF i = 0 THEN 1 ELSE 0], [i \in Idx |-> IF i = N - 1 THEN -1 ELSE 0] }
+\* two matrices (k x 1) and six s2 vectors; with k = 1 these are the sets the first version of this module used
+AS  == { [r \in Rows |-> [i \in Idx |-> (3 * i * i + 5 * i + 7 + 4 * r * (i + 1)) % Q]],
+         [r \in Rows |-> [i \in Idx |-> (11 * i + 2 + 6 * r * (i * i + 1)) % Q]] }
+S2L == << [i \in Idx |-> 0], [i \in Idx |-> 1], [i \in Idx |-> -1], [i \in Idx |-> IF i % 2 = 0 THEN 1 ELSE -1],
+          [i \in Idx |-> IF i = 0 THEN 1 ELSE 0], [i \in Idx |-> IF i = N - 1 THEN -1 ELSE 0] >>
+S2S == { [r \in Rows |-> S2L[((j + 3 * r) % 6) + 1]] : j \in 0 .. 5 }
 Code(f) == LET RECURSIVE C(_) C(i) == IF i = N THEN 0 ELSE (f[i] + ETA) + (2 * ETA + 1) * C(i + 1) IN C(0)
 
 VARIABLES a, s1, s2, phase, res
@@ -27,28 +33,28 @@ Init == /\ a \in AS /\ s1 \in { f \in Small : Code(f) % KeyStride = 0 } /\ s2 \i
 \* size and exhaustively, that the NTT formulation of the standard computes the same product.
 \* (The NTT path costs TLC about 30x more per attempt, which would shrink the explored key set.)
 Prod(f, g) == Schoolbook(ModQPoly(f), ModQPoly(g))
+V(F(_)) == TLCEval([r \in Rows |-> F(r)])             \* a vector of k polynomials
 
 Attempt(y, c) ==
-  LET t   == PolyAdd(Prod(a, s1), ModQPoly(s2))
-      t1  == TLCEval([i \in Idx |-> Power2Round(t[i])[1]])
-      t0  == TLCEval([i \in Idx |-> Power2Round(t[i])[2]])
-      w   == Prod(a, y)
-      w1  == HighBitsPoly(w)
+  LET t   == V(LAMBDA r : PolyAdd(Prod(a[r], s1), ModQPoly(s2[r])))
+      t1  == V(LAMBDA r : [i \in Idx |-> Power2Round(t[r][i])[1]])
+      t0  == V(LAMBDA r : [i \in Idx |-> Power2Round(t[r][i])[2]])
+      w   == V(LAMBDA r : Prod(a[r], y))
+      w1  == V(LAMBDA r : HighBitsPoly(w[r]))
       cs1 == Prod(c, s1)
-      cs2 == Prod(c, s2)
-      ct0 == Prod(c, t0)
+      cs2 == V(LAMBDA r : Prod(c, s2[r]))
+      ct0 == V(LAMBDA r : Prod(c, t0[r]))
       z   == PolyAdd(ModQPoly(y), cs1)
-      wcs2 == PolySub(w, cs2)
-      r0  == LowBitsPoly(wcs2)
-      h   == MakeHintPoly(PolyNeg(ct0), PolyAdd(wcs2, ct0))
-      rej1 == PolyNorm(z) >= GAMMA1 - BETA \/ PolyNorm(r0) >= GAMMA2 - BETA
-      rej2 == PolyNorm(ct0) >= GAMMA2 \/ PolyWeight(h) > OMEGA
+      wcs2 == V(LAMBDA r : PolySub(w[r], cs2[r]))
+      r0  == V(LAMBDA r : LowBitsPoly(wcs2[r]))
+      h   == V(LAMBDA r : MakeHintPoly(PolyNeg(ct0[r]), PolyAdd(wcs2[r], ct0[r])))
+      rej1 == PolyNorm(z) >= GAMMA1 - BETA \/ VecNorm(r0, KK) >= GAMMA2 - BETA
+      rej2 == VecNorm(ct0, KK) >= GAMMA2 \/ VecWeight(h, KK) > OMEGA
       \* the verifier's side (Algorithm 8 lines 9-10)
-      wap == PolySub(Prod(a, CenterPoly(z)), Prod(c, ScalePoly(t1, 2^D)))
-      w1p == UseHintPoly(h, wap)
+      w1p == V(LAMBDA r : UseHintPoly(h[r], PolySub(Prod(a[r], CenterPoly(z)), Prod(c, ScalePoly(t1[r], 2^D)))))
       vok == PolyNorm(z) < GAMMA1 - BETA /\ w1p = w1
   IN [acc |-> ~rej1 /\ ~rej2, ok |-> (rej1 \/ rej2) \/ vok,
-      why |-> IF rej1 THEN "norm" ELSE IF rej2 THEN "hint" ELSE "none", wt |-> PolyWeight(h)]
+      why |-> IF rej1 THEN "norm" ELSE IF rej2 THEN "hint" ELSE "none", wt |-> VecWeight(h, KK)]
 
 Sign == /\ phase = "key"
         /\ \E y \in Masks, c \in Ball : res' = Attempt(y, c)
@@ -62,6 +68,8 @@ CRejectNorm      == phase = "done" /\ res.why = "norm"          /\ phase' = "cla
 CRejectHint      == phase = "done" /\ res.why = "hint"          /\ phase' = "classified" /\ UNCHANGED << a, s1, s2, res >>
 Next == Sign \/ CAcceptMaxWeight \/ CAcceptNoHint \/ CRejectNorm \/ CRejectHint
 Spec == Init /\ [][Next]_vars
+KeysOnly == FALSE /\ UNCHANGED vars                   \* NEXT of the all-keys configuration: only CanTerminate, on EVERY key
 
 Complete == res.ok                                    \* the property (C01 at toy size)
+CanTerminate == phase = "key" => \E y \in Masks, c \in Ball : Attempt(y, c).acc
 =======================================================================
